@@ -13,7 +13,7 @@ on all assignments."""
 import importlib
 import itertools
 
-from lib import import_impl, outcome, is_error, cnf_sat, pb_sat, assignments, family_replies
+from lib import import_impl, outcome, is_error, cnf_sat, pb_sat, assignments, family_replies, lit_true
 
 META = dict(
     technique='Coq theorem cnf_opb_same_models over the IR of builder calls (+ per-family irs_ok lemmas) + differential build of every family under both formula classes and both command line tools against to_cnf/to_opb of the extracted model',
@@ -118,7 +118,10 @@ def run(ctx):
                       dict(input=dict(family=name, params=p), numvar=(n, mnum), theorem='C08_same_models'), False, site='model-mismatch', cls=name)
 
     random_builder_calls(ctx, CNF, OPB)
+    wide_builder_calls(ctx, CNF, OPB)
     dimacs_family(ctx)
+    tool_outputs(ctx)
+    seeded_tools(ctx)
 
     # command line: cnfgen vs pbgen on the same arguments
     from cnfgen.clitools.cnfgen import cli as cnfgen_cli
@@ -270,3 +273,223 @@ def dimacs_family(ctx):
                               dict(input=dict(argv=argv, file=open(argv[1]).read() if argv[0] == 'dimacs' else None), assignment=list(w)), True, site='tools-models', cls=argv[0])
     import shutil
     shutil.rmtree(tmp, ignore_errors=True)
+
+
+def wide_builder_calls(ctx, CNF, OPB):
+    """constraints of 15..18 literals (defects that only show beyond 16 literals: folded parities, fast paths): the CNF object
+    and the OPB object against to_cnf / to_opb of the extracted model, in order; on a difference the property is decided on
+    sampled assignments (the arithmetic meaning of the call against both objects)."""
+    from lib import cmd, Sym
+    rng = ctx.rng
+    cases, reqs = [], []
+    forced = [(16, 'parity'), (17, 'parity')] + ([(18, 'parity')] if ctx.tier != 'quick' else [])
+    for i in range(8 if ctx.tier == 'quick' else 40):
+        k = rng.choice([15, 16, 17, 17, 18])
+        kind = rng.choice(['parity', 'lin', 'lin', 'lin'])
+        if i < len(forced):
+            k, kind = forced[i]
+        nv = k + rng.randint(0, 2)
+        vs = rng.sample(range(1, nv + 1), k)
+        lits = [v * rng.choice([1, -1]) for v in vs]
+        if kind == 'parity' and (k <= 17 or i < len(forced)):
+            call = [Sym('parity'), lits, rng.randint(0, 1)]
+        else:
+            op, val = rng.choice([('>=', 1), ('>=', 2), ('<=', k - 1), ('<=', k - 2), ('==', 0), ('==', k), ('==', 1), ('!=', 0), ('!=', 1), ('!=', k),
+                                  ('>', 0), ('<', k), ('>=', k - 1), ('<=', 1)])
+            call = [Sym('lin'), lits, op, val]
+        cases.append((nv, call))
+        reqs.append(cmd('to_cnf', [call]))
+        reqs.append(cmd('to_opb', [call]))
+    reps = ctx.model.batch(reqs)
+    for j, (nv, c) in enumerate(cases):
+        mcnf, mopb = reps[2 * j], reps[2 * j + 1]
+        F, G = CNF(), OPB()
+        for X in (F, G):
+            X.update_variable_number(nv)
+            if c[0] == 'parity':
+                X.add_parity(list(c[1]), c[2])
+            elif c[2] in ('<', '>') and X is G:
+                X.add_constraint([(1, l) for l in c[1]] + [c[2], c[3]])
+            else:
+                {'<=': X.cardinality_leq, '>=': X.cardinality_geq, '==': X.cardinality_eq, '!=': X.cardinality_neq,
+                 '<': lambda l, v: X.add_linear(l, '<', v), '>': lambda l, v: X.add_linear(l, '>', v)}[c[2]](list(c[1]), c[3])
+        cl = [list(x) for x in F]
+        cons = [[tuple(t) if isinstance(t, (list, tuple)) else t for t in x] for x in G]
+        ctx.count('wide-builder-calls', str(c), nontrivial=True, sample=dict(numvar=nv, call=str(c)[:200], clauses=len(cl), constraints=len(cons)))
+        ctx.tally('wide builder call: literals', len(c[1]))
+        mopb_py = [[tuple(t) for t in x[0]] + [x[1], x[2]] for x in mopb]
+        if cl == mcnf and cons == mopb_py:
+            continue
+        ctx.disagreements_checked += 1
+        # decide the property on assignments: all-true/all-false of the literals, single flips of them, and random ones
+        def meaning(a):
+            s_ = sum(1 for l in c[1] if lit_true(a, l))
+            if c[0] == 'parity':
+                return s_ % 2 == c[2]
+            return {'<=': s_ <= c[3], '>=': s_ >= c[3], '==': s_ == c[3], '!=': s_ != c[3], '<': s_ < c[3], '>': s_ > c[3]}[c[2]]
+        probes = []
+        for base_val in (True, False):
+            a0 = [None] + [False] * nv
+            for l in c[1]:
+                a0[abs(l)] = (l > 0) == base_val
+            probes.append(a0)
+            for l in c[1]:
+                a1 = list(a0)
+                a1[abs(l)] = not a1[abs(l)]
+                probes.append(a1)
+        for _ in range(300):
+            probes.append([None] + [rng.random() < 0.5 for _ in range(nv)])
+        bad = None
+        for a in probes:
+            want, gc, go = meaning(a), cnf_sat(a, cl), all(pb_sat(a, x) for x in G)
+            if gc != go or gc != want:
+                bad = (a[1:], want, gc, go)
+                break
+        if bad:
+            ctx.violation('counterexample', 'a %s call on %d literals: the CNF object and the OPB object do not have the same models (meaning %s, CNF %s, OPB %s)'
+                          % (c[0], len(c[1]), bad[1], bad[2], bad[3]), dict(input=dict(numvar=nv, call=str(c)), assignment=bad[0]), True,
+                          site='builder-models', cls='wide-' + str(c[0]))
+        else:
+            ctx.violation('correspondence', 'wide builder call renders differently from IR.v to_cnf/to_opb (theorem C08_same_models no longer covers the code)',
+                          dict(input=dict(numvar=nv, call=str(c)), clauses=(len(cl), len(mcnf)), constraints=(len(cons), len(mopb_py)), theorem='C08_same_models'),
+                          False, site='builder-render', cls='wide')
+
+
+def _read_opb_text(text):
+    """strict reader of the OPB text: (numvar, declared constraints, constraint list [([(coeff, lit)...], op, degree)])"""
+    import re
+    lines = text.split('\n')
+    m = re.match(r'^\* #variable= (\d+) #constraint= (\d+)\s*$', lines[0])
+    if not m:
+        raise ValueError('first line %r' % lines[0][:80])
+    cons = []
+    for ln in lines[1:]:
+        if ln.startswith('*') or ln.strip() == '':
+            continue
+        toks = ln.split()
+        if toks[-1] == ';':
+            toks = toks[:-1]
+        body, op, deg = toks[:-2], toks[-2], int(toks[-1])
+        if op not in ('>=', '=') or len(body) % 2:
+            raise ValueError('bad constraint line %r' % ln[:80])
+        terms = []
+        for i in range(0, len(body), 2):
+            v = body[i + 1]
+            terms.append((int(body[i]), -int(v[2:]) if v.startswith('~x') else int(v[1:])))
+        cons.append((terms, op, deg))
+    return int(m.group(1)), int(m.group(2)), cons
+
+
+def _read_dimacs_text(text):
+    import re
+    nv = nc = None
+    cl = []
+    for ln in text.split('\n'):
+        if ln.startswith('c') or ln.strip() == '':
+            continue
+        if ln.startswith('p'):
+            _, _, a, b = ln.split()
+            nv, nc = int(a), int(b)
+            continue
+        t = [int(x) for x in ln.split()]
+        if t[-1] != 0:
+            raise ValueError('clause line without 0')
+        cl.append(t[:-1])
+    return nv, nc, cl
+
+
+def tool_outputs(ctx):
+    """what the property observes: the TEXT pbgen writes against the TEXT cnfgen writes, on sizes around the block sizes of
+    the writers (4095..4097, 8192.. constraints).  For these families every pseudo-Boolean constraint is a clause, so the two
+    files must list the same clauses in the same order; plus the declared counts."""
+    from cnfgen.clitools.cnfgen import cli as cnfgen_cli
+    from cnfgen.clitools.pbgen import cli as pbgen_cli
+    rng = ctx.rng
+    sizes = [4095, 4096, 4097, 8192, 8193] if ctx.tier == 'quick' else [1023, 1024, 1025, 4095, 4096, 4097, 8191, 8192, 8193, 12288, 16385, 65536, 65537]
+    cases = []
+    for n in sizes:
+        a = rng.randint(0, n)
+        cases.append(['and', a, n - a])
+        cases.append(['peb', 'path', n])
+    cases.append(['or', rng.randint(1, 3000), rng.randint(1, 3000)])
+    cases.append(['php', 20, 19])             # 4 000 constraints
+    cases.append(['op', 17])
+    for argv in cases:
+        argv = ['-q'] + [str(x) for x in argv]
+        a = outcome(lambda: cnfgen_cli(['cnfgen'] + argv, mode='string'))
+        b = outcome(lambda: pbgen_cli(['pbgen'] + argv, mode='string'))
+        ctx.count('tool-outputs', tuple(argv), nontrivial=True, sample=dict(argv=argv))
+        ctx.tally('tool output family', argv[1])
+        if a[0] != 'ok' or b[0] != 'ok':
+            ctx.violation('counterexample', 'cnfgen / pbgen do not both write a formula for %s: %s / %s' % (' '.join(argv), a[:2], b[:2]), dict(input=dict(argv=argv)),
+                          True, site='tools-accept', cls=argv[1])
+            continue
+        try:
+            nv, nc, cl = _read_dimacs_text(a[1])
+            ov, oc, cons = _read_opb_text(b[1])
+        except ValueError as e:
+            ctx.violation('counterexample', 'output of %s is not readable: %s' % (' '.join(argv), e), dict(input=dict(argv=argv)), True, site='tools-text', cls=argv[1])
+            continue
+        what = None
+        if nv != ov:
+            what = 'cnfgen declares %d variables, pbgen %d' % (nv, ov)
+        elif nc != len(cl) or oc != len(cons):
+            what = 'declared and written counts differ (dimacs %d/%d, opb %d/%d)' % (nc, len(cl), oc, len(cons))
+        elif all(op == '>=' and deg == 1 and all(co == 1 for co, _ in terms) for terms, op, deg in cons):
+            asclauses = [[l for _, l in terms] for terms, _, _ in cons]
+            if asclauses != cl:
+                i = next((i for i, (x, y) in enumerate(zip(asclauses, cl)) if x != y), min(len(asclauses), len(cl)))
+                what = 'the files list different clauses from position %d on (%d clauses in the dimacs file, %d constraints in the opb file)' % (i, len(cl), len(cons))
+        else:
+            # constraints that are not clauses (php, op): sampled assignments must be judged alike
+            for _ in range(30):
+                x = [None] + [rng.random() < 0.5 for _ in range(nv)]
+                # walk towards a model of the CNF to make the comparison informative
+                if cnf_sat(x, cl) != all(pb_sat(x, list(t) + [o if o != '=' else '==', d]) for t, o, d in cons):
+                    what = 'an assignment satisfies one file and not the other'
+                    break
+        if what:
+            ctx.violation('counterexample', 'pbgen and cnfgen outputs for %s: %s' % (' '.join(argv), what), dict(input=dict(argv=argv)), True,
+                          site='tools-text', cls=argv[1])
+
+
+def seeded_tools(ctx):
+    """the same seeded command line through both tools: random graph arguments, random charges and random formulas must come
+    out the same (same variables, same models) - both tools stand for the same seeded library session"""
+    from cnfgen.clitools.cnfgen import cli as cnfgen_cli
+    from cnfgen.clitools.pbgen import cli as pbgen_cli
+    rng = ctx.rng
+    for i in range(24 if ctx.tier == 'quick' else 200):
+        seed = rng.choice([0, 1, 2, 5, 42, -3, 10 ** 12])
+        n = rng.randint(4, 7)
+        argv = rng.choice([
+            ['tseitin', rng.choice(['random', 'randomodd', 'randomeven']), 'gnm', n, rng.randint(n - 2, n + 2)],
+            ['tseitin', rng.choice(['random', 'randomodd', 'randomeven']), 'gnp', n, '0.5'],
+            ['tseitin', rng.choice(['randomodd', 'first']), 'gnd', 6, 3],
+            ['tseitin', 6, 3],
+            ['kcolor', 2, 'gnm', n, n], ['kcolor', 2, 'grid', 2, 3, 'addedges', 2], ['matching', 'gnp', 6, '0.6'],
+            ['php', 4, 3, 2], ['subsetcard', 'glrd', 3, 4, 2], ['subsetcard', 4, 2], ['randkcnf', 3, n, n + 2], ['randkxor', 3, n, 3],
+            ['domset', 2, 'gnm', 5, 5, 'plantclique', 3], ['ec', 'gnd', 6, 2]])
+        argv = ['-q', '-S', str(seed)] + [str(x) for x in argv]
+        a = outcome(lambda: cnfgen_cli(['cnfgen'] + argv, mode='formula'))
+        b = outcome(lambda: pbgen_cli(['pbgen'] + argv, mode='formula'))
+        ctx.count('seeded-tools', tuple(argv), nontrivial=True, sample=dict(argv=argv))
+        ctx.tally('seeded tool family', argv[3])
+        if a[0] != 'ok' or b[0] != 'ok':
+            if (a[0] == 'ok') != (b[0] == 'ok'):
+                ctx.violation('counterexample', 'cnfgen and pbgen disagree on accepting %s' % ' '.join(argv), dict(input=dict(argv=argv), cnfgen=str(a[1:])[:200], pbgen=str(b[1:])[:200]),
+                              True, site='tools-accept', cls=argv[3])
+            continue
+        F, G = a[1], b[1]
+        nv = F.number_of_variables()
+        if nv != G.number_of_variables() or list(F.all_variable_labels()) != list(G.all_variable_labels()):
+            ctx.violation('counterexample', 'cnfgen and pbgen disagree on variables/names for %s' % ' '.join(argv), dict(input=dict(argv=argv)), True, site='tools-shape', cls=argv[3])
+        elif nv <= 16:
+            cl = [list(c) for c in F]
+            cons = [list(c) for c in G]
+            m1 = set(tuple(x[1:]) for x in assignments(nv) if cnf_sat(x, cl))
+            m2 = set(opb_models(nv, cons))
+            if m1 != m2:
+                w = sorted(m1 ^ m2)[0]
+                ctx.violation('counterexample', 'seeded cnfgen and pbgen formulas for %s have different models' % ' '.join(argv), dict(input=dict(argv=argv), assignment=list(w)),
+                              True, site='tools-models', cls='seeded-' + argv[3])
